@@ -42,10 +42,30 @@ type obsModel struct {
 	// last activity per client session as the log defines it
 	lastAct map[uint64]time.Time
 	cfgs    []cfgPoint
+	// channel membership as the server ANNOUNCED it (JOIN/PART/KICK/QUIT lines it sent), by lower-cased
+	// channel name; the white-box membership is not trusted for who may receive channel traffic
+	ann map[string]map[uint64]bool
+	// (primary model only) the announced membership after each observed index: the models judging faulted
+	// replicas use the announcements of the whole log, which a restored replica has not seen itself
+	annHist map[uint64]map[string]map[uint64]bool
+	annIdx  []uint64
+}
+
+func (m *obsModel) annAtOrBefore(idx uint64) map[string]map[uint64]bool {
+	var best map[string]map[uint64]bool
+	for _, i := range m.annIdx {
+		if i <= idx {
+			best = m.annHist[i]
+		}
+	}
+	if best == nil {
+		best = map[string]map[uint64]bool{}
+	}
+	return best
 }
 
 func newObsModel(r *e1Run) *obsModel {
-	return &obsModel{r: r, ended: map[uint64]uint64{}, created: map[uint64]uint64{}, lastAct: map[uint64]time.Time{}}
+	return &obsModel{r: r, ended: map[uint64]uint64{}, created: map[uint64]uint64{}, lastAct: map[uint64]time.Time{}, ann: map[string]map[uint64]bool{}, annHist: map[uint64]map[string]map[uint64]bool{}}
 }
 
 func (m *obsModel) expirationInForceAt(applied uint64) time.Duration {
@@ -470,6 +490,111 @@ func (m *obsModel) observe(n *e1Node, e *logEntry, outs []outMsg, before *priv) 
 		}
 	}
 
+	// ---- announced membership after this entry ----
+	annBefore := m.ann
+	if m != r.model {
+		annBefore = r.model.annAtOrBefore(e.Index - 1)
+	}
+	annAfter := map[string]map[uint64]bool{}
+	for ck, set := range annBefore {
+		cp := map[uint64]bool{}
+		for id := range set {
+			cp[id] = true
+		}
+		annAfter[ck] = cp
+	}
+	idOfPrefix := func(pf *irc.Prefix) (uint64, bool) {
+		if pf == nil {
+			return 0, false
+		}
+		if strings.HasPrefix(pf.Host, "robust/0x") {
+			if id, err := strconv.ParseUint(pf.Host[len("robust/0x"):], 16, 64); err == nil {
+				return id, true
+			}
+		}
+		for _, p := range []*priv{before, after} {
+			if s := sessByNick(p, pf.Name); s != nil {
+				return s.Id, true
+			}
+		}
+		return 0, false
+	}
+	for _, o := range outs {
+		pm := irc.ParseMessage(o.Data)
+		if pm == nil || len(pm.Params) < 1 {
+			if pm != nil && strings.ToUpper(pm.Command) == "QUIT" {
+				if id, ok := idOfPrefix(pm.Prefix); ok {
+					if ps := after.Sess[[2]uint64{id, 0}]; ps == nil || !ps.Server {
+						for _, set := range annAfter {
+							delete(set, id)
+						}
+					}
+				}
+			}
+			continue
+		}
+		lc := strings.ToLower(pm.Params[0])
+		switch strings.ToUpper(pm.Command) {
+		case "JOIN":
+			if id, ok := idOfPrefix(pm.Prefix); ok {
+				if annAfter[lc] == nil {
+					annAfter[lc] = map[uint64]bool{}
+				}
+				annAfter[lc][id] = true
+			}
+		case "PART":
+			if id, ok := idOfPrefix(pm.Prefix); ok {
+				// (a services link stays "present" through its other pseudo-clients; links are entitled anyway)
+				if ps := after.Sess[[2]uint64{id, 0}]; ps == nil || !ps.Server {
+					delete(annAfter[lc], id)
+				}
+			}
+		case "KICK":
+			if len(pm.Params) >= 2 {
+				if t := sessByNick(before, pm.Params[1]); t != nil && !t.Server && t.Reply == 0 {
+					delete(annAfter[lc], t.Id)
+				}
+			}
+		case "QUIT":
+			if id, ok := idOfPrefix(pm.Prefix); ok {
+				if ps := after.Sess[[2]uint64{id, 0}]; ps == nil || !ps.Server {
+					for _, set := range annAfter {
+						delete(set, id)
+					}
+				}
+			}
+		}
+	}
+	// a session that no longer exists cannot be a member (and cannot receive anything: C17)
+	for ck, set := range annAfter {
+		for id := range set {
+			if _, ok := after.Sess[[2]uint64{id, 0}]; !ok {
+				delete(set, id)
+			}
+		}
+		if _, exists := after.Chans[ck]; !exists {
+			delete(annAfter, ck)
+		}
+	}
+	m.ann = annAfter
+	if m == r.model {
+		m.annHist[e.Index] = annAfter
+		m.annIdx = append(m.annIdx, e.Index)
+	} else {
+		// what the never-faulted node announced for this entry is what counts
+		annAfter = r.model.annAtOrBefore(e.Index)
+	}
+	announced := func(lc string) map[uint64]bool { return union(annBefore[lc], annAfter[lc]) }
+	intersect := func(a, b map[uint64]bool) map[uint64]bool {
+		out := map[uint64]bool{}
+		for id := range a {
+			if b[id] {
+				out[id] = true
+			}
+		}
+		return out
+	}
+
 	membershipEvents := 0
 	for _, o := range outs {
 		// ---- C15 ----
@@ -530,10 +655,28 @@ func (m *obsModel) observe(n *e1Node, e *logEntry, outs []outMsg, before *priv) 
 			}
 		}
 
+		// ---- C12: identity of lines relayed in the name of a services pseudo-client ----
+		if svcPrefix && !isLink {
+			// (a services link is trusted with the names it relays under; nobody else is)
+			found := false
+			for _, p := range []*priv{before, after} {
+				for k, s := range p.Sess {
+					if k[1] != 0 && ircserver.VerifLower(s.Nick) == ircserver.VerifLower(pm.Prefix.Name) {
+						found = true
+					}
+				}
+			}
+			if !found {
+				r.violate("C12", "forged-identity", "forged-identity:services:"+oc+":"+cmdOf(e), fmt.Sprintf("index %d (%s): output %q is relayed as services pseudo-client %s, but no session introduced by a services link has that nickname", e.Index, descr(e), trunc(o.Data, 160), pm.Prefix.String()))
+			}
+		}
+
 		rset := setOf(o.Rcpt...)
 		_ = rset
 		chanOf := func(name string) string { return strings.ToLower(name) }
-		bothMembers := func(lc string) map[uint64]bool { return union(memberIDs(before, lc), memberIDs(after, lc)) }
+		bothMembers := func(lc string) map[uint64]bool {
+			return intersect(union(memberIDs(before, lc), memberIDs(after, lc)), announced(lc))
+		}
 		subjectByPrefix := func() *ircserver.VerifSess {
 			if pm.Prefix == nil {
 				return nil
@@ -592,6 +735,12 @@ func (m *obsModel) observe(n *e1Node, e *logEntry, outs []outMsg, before *priv) 
 					r.res.Add("relayed_checked_multi", 1)
 				}
 				r.res.Add("relayed_checked", 1)
+				for id := range got {
+					if !announced(lc)[id] {
+						r.violate("C12", "leak", "leak:unannounced-member:"+cmdOf(e), fmt.Sprintf("index %d (%s): channel message %q was delivered to session %d, which never was announced as joining %s (or was announced as leaving it); announced members: %s", e.Index, descr(e), trunc(o.Data, 120), id-off, lc, idList(announced(lc), off)))
+						break
+					}
+				}
 				if idList(want, off) != idList(got, off) {
 					r.violate("C12", "channel-message-recipients", "channel-message-recipients:"+cmdOf(e), fmt.Sprintf("index %d (%s): channel message %q delivered to %s, the other current members are %s", e.Index, descr(e), trunc(o.Data, 120), idList(got, off), idList(want, off)))
 				}
